@@ -11,10 +11,11 @@ import (
 )
 
 // The corpus format is the scenario itself, one directive per line: the
-// declaration lines of the protocol (hist, upd, fac) and the harness-side
-// settings the machine does not see (managers, run plans, gates, schedule
-// hints). A failure witness is printed in this format, so it can be saved
-// under corpus/C13/ and is then run first on every check.
+// declaration lines of the protocol (hist, upd) and the harness-side settings
+// (factories, set and registry operations, managers with their options in
+// order, run plans, gates, schedule hints). A failure witness is printed in
+// this format, so it can be saved under corpus/C13/ and is then run first on
+// every check.
 
 func (s *scenario) dump() string {
 	var out []string
@@ -30,15 +31,32 @@ func (s *scenario) dump() string {
 			out = append(out, fmt.Sprintf("spin %d %d", sc.inst, sc.spin))
 		}
 	}
+	for _, u := range s.usetOps {
+		switch u.op {
+		case "filter":
+			out = append(out, fmt.Sprintf("usetop %d filter %s", u.set, u.pat))
+		case "list":
+			out = append(out, fmt.Sprintf("usetop %d list -", u.set))
+		default:
+			out = append(out, fmt.Sprintf("usetop %d %s %d", u.set, u.op, u.arg))
+		}
+	}
 	for _, f := range s.facs {
-		out = append(out, fmt.Sprintf("fac %d %s %s", f.id, b01(f.ok), csv(f.members)))
+		out = append(out, fmt.Sprintf("factory %d %s %s %d %d", f.id, b01(f.ok), csv(f.members), f.fcfg, f.uset))
+	}
+	for _, o := range s.regOps {
+		out = append(out, fmt.Sprintf("regop %s %d %d", o.op, o.name, o.fac))
+	}
+	var bound []int
+	for n := range s.regBind {
+		bound = append(bound, n)
+	}
+	sort.Ints(bound)
+	for _, n := range bound {
+		out = append(out, fmt.Sprintf("regbind %d %d", n, s.regBind[n]))
 	}
 	for i, m := range s.mgrs {
-		en := "*"
-		if m.enabled != nil {
-			en = csv(m.enabled)
-		}
-		out = append(out, fmt.Sprintf("mgr %d %d %d %s %s %d", i, m.batch, m.retention, csv(m.given), en, m.oot))
+		out = append(out, strings.TrimRight(fmt.Sprintf("mgr %d %s %s", i, b01(!m.clientNil), m.tokens()), " "))
 	}
 	for i, r := range s.runs {
 		k, site := r.plan.kind, r.plan.site
@@ -48,7 +66,7 @@ func (s *scenario) dump() string {
 		if site == "" {
 			site = "-"
 		}
-		out = append(out, fmt.Sprintf("runspec %d %d %d %d %s %s %d %d", i, r.mgr, r.phase, r.startGC, k, site, r.plan.n, r.gateD/time.Microsecond))
+		out = append(out, fmt.Sprintf("runspec %d %d %d %d %s %s %d %d %s %d", i, r.mgr, r.phase, r.startGC, k, site, r.plan.n, r.gateD/time.Microsecond, b01(r.start), r.plan.run))
 	}
 	out = append(out, fmt.Sprintf("procs %d", s.procs))
 	if s.yieldAll {
@@ -56,6 +74,12 @@ func (s *scenario) dump() string {
 	}
 	if s.silent {
 		out = append(out, "silent")
+	}
+	if s.setFail {
+		out = append(out, "setfail")
+	}
+	if s.gcFail {
+		out = append(out, "gcfail")
 	}
 	return strings.Join(out, "; ")
 }
@@ -77,11 +101,17 @@ func parseCSV(s string) ([]int, error) {
 
 // parseScenario reads the dump format (lines separated by newlines or "; ").
 func parseScenario(text string) (*scenario, error) {
-	sc := &scenario{procs: 4}
-	text = strings.ReplaceAll(text, ";", "\n")
-	for _, line := range strings.Split(text, "\n") {
+	sc := &scenario{procs: 4, regBind: map[int]int{}}
+	var lines []string
+	for _, l := range strings.Split(text, "\n") {
+		if strings.HasPrefix(strings.TrimSpace(l), "#") {
+			continue
+		}
+		lines = append(lines, strings.Split(l, ";")...)
+	}
+	for _, line := range lines {
 		line = strings.TrimSpace(line)
-		if line == "" || strings.HasPrefix(line, "#") {
+		if line == "" {
 			continue
 		}
 		f := strings.Fields(line)
@@ -97,7 +127,7 @@ func parseScenario(text string) (*scenario, error) {
 			}
 			sc.hist = append(sc.hist, histOp{kind: f[1][0], name: ints[2], fp: ints[3]})
 		case "upd":
-			if len(f) != 13 || ints[1] != len(sc.scripts) {
+			if (len(f) != 13 && len(f) != 14) || ints[1] != len(sc.scripts) {
 				return nil, bad
 			}
 			vs, e1 := parseCSV(f[9])
@@ -105,8 +135,12 @@ func parseScenario(text string) (*scenario, error) {
 			if e1 != nil || e2 != nil {
 				return nil, bad
 			}
-			sc.scripts = append(sc.scripts, &script{inst: ints[1], name: ints[2], kind: f[3][0], cfg: ints[4], getOk: f[5] == "1",
-				fmode: ints[6], src: ints[7], parseOk: f[8] == "1", vulns: vs, deleted: ds, storeOk: f[11] == "1", ctxAware: f[12] == "1"})
+			s := &script{inst: ints[1], name: ints[2], kind: f[3][0], cfg: ints[4], getOk: f[5] == "1",
+				fmode: ints[6], src: ints[7], parseOk: f[8] == "1", vulns: vs, deleted: ds, storeOk: f[11] == "1", ctxAware: f[12] == "1"}
+			if len(f) == 14 {
+				s.cmode = ints[13]
+			}
+			sc.scripts = append(sc.scripts, s)
 		case "gate":
 			if len(f) != 2 || ints[1] >= len(sc.scripts) {
 				return nil, bad
@@ -117,34 +151,55 @@ func parseScenario(text string) (*scenario, error) {
 				return nil, bad
 			}
 			sc.scripts[ints[1]].spin = ints[2]
-		case "fac":
-			if len(f) != 4 || ints[1] != len(sc.facs) {
+		case "usetop":
+			if len(f) != 4 {
+				return nil, bad
+			}
+			u := usetOp{set: ints[1], op: f[2]}
+			switch f[2] {
+			case "add", "merge":
+				u.arg = ints[3]
+			case "filter":
+				u.pat = f[3]
+			case "list":
+			default:
+				return nil, bad
+			}
+			sc.usetOps = append(sc.usetOps, u)
+		case "factory":
+			if len(f) != 6 || ints[1] != len(sc.facs) {
 				return nil, bad
 			}
 			ms, err := parseCSV(f[3])
 			if err != nil {
 				return nil, bad
 			}
-			sc.facs = append(sc.facs, facSpec{id: ints[1], ok: f[2] == "1", members: ms})
+			sc.facs = append(sc.facs, facSpec{id: ints[1], ok: f[2] == "1", members: ms, fcfg: ints[4], uset: ints[5]})
+		case "regop":
+			if len(f) != 4 || (f[1] != "register" && f[1] != "registered") {
+				return nil, bad
+			}
+			sc.regOps = append(sc.regOps, regOp{op: f[1], name: ints[2], fac: ints[3]})
+		case "regbind":
+			if len(f) != 3 {
+				return nil, bad
+			}
+			sc.regBind[ints[1]] = ints[2]
 		case "mgr":
-			if len(f) != 7 || ints[1] != len(sc.mgrs) {
+			if len(f) < 3 || ints[1] != len(sc.mgrs) {
 				return nil, bad
 			}
-			given, err := parseCSV(f[4])
-			if err != nil {
-				return nil, bad
-			}
-			m := mgrSpec{batch: ints[2], retention: ints[3], given: given, oot: ints[6]}
-			if f[5] != "*" {
-				en, err := parseCSV(f[5])
+			m := mgrSpec{clientNil: f[2] == "0"}
+			for _, tok := range f[3:] {
+				o, err := parseOptToken(tok)
 				if err != nil {
-					return nil, bad
+					return nil, err
 				}
-				m.enabled = append([]int{}, en...)
+				m.opts = append(m.opts, o)
 			}
 			sc.mgrs = append(sc.mgrs, m)
 		case "runspec":
-			if len(f) != 9 || ints[1] != len(sc.runs) || ints[2] >= len(sc.mgrs) {
+			if (len(f) != 9 && len(f) != 11) || ints[1] != len(sc.runs) || ints[2] >= len(sc.mgrs) {
 				return nil, bad
 			}
 			r := runSpec{mgr: ints[2], phase: ints[3], startGC: ints[4], gateD: time.Duration(ints[8]) * time.Microsecond}
@@ -155,6 +210,10 @@ func parseScenario(text string) (*scenario, error) {
 				r.plan.site = f[6]
 			}
 			r.plan.n = ints[7]
+			if len(f) == 11 {
+				r.start = f[9] == "1"
+				r.plan.run = ints[10]
+			}
 			sc.runs = append(sc.runs, r)
 		case "procs":
 			if len(f) != 2 || ints[1] < 1 {
@@ -165,8 +224,10 @@ func parseScenario(text string) (*scenario, error) {
 			sc.yieldAll = true
 		case "silent":
 			sc.silent = true
-		case "run":
-			// derived declaration line; ignored when present
+		case "setfail":
+			sc.setFail = true
+		case "gcfail":
+			sc.gcFail = true
 		default:
 			return nil, bad
 		}
@@ -178,14 +239,30 @@ func parseScenario(text string) (*scenario, error) {
 			}
 		}
 	}
-	for _, m := range sc.mgrs {
-		for _, f := range append(append([]int{}, m.given...), m.enabled...) {
-			if f < 0 || f >= len(sc.facs) {
-				return nil, fmt.Errorf("manager names factory %d", f)
-			}
+	for _, u := range sc.usetOps {
+		if u.op == "add" && (u.arg < 0 || u.arg >= len(sc.scripts)) {
+			return nil, fmt.Errorf("set operation names updater %d", u.arg)
 		}
-		if m.oot >= len(sc.facs) {
-			return nil, fmt.Errorf("manager names factory %d", m.oot)
+	}
+	for n, f := range sc.regBind {
+		if f < 0 || f >= len(sc.facs) {
+			return nil, fmt.Errorf("registry name %d bound to factory %d", n, f)
+		}
+	}
+	for _, m := range sc.mgrs {
+		for _, o := range m.opts {
+			for _, p := range o.pairs {
+				if p[1] < 0 || p[1] >= len(sc.facs) {
+					return nil, fmt.Errorf("manager names factory %d", p[1])
+				}
+			}
+			if o.kind == "oot" {
+				for _, i := range o.list {
+					if i < 0 || i >= len(sc.scripts) {
+						return nil, fmt.Errorf("manager names updater %d", i)
+					}
+				}
+			}
 		}
 	}
 	if len(sc.mgrs) == 0 || len(sc.runs) == 0 {
